@@ -34,6 +34,7 @@ import re
 import traceback
 from pathlib import Path
 
+import backends_fn as FN
 import containers as C
 import gen
 import vcore
@@ -51,7 +52,7 @@ RULE = (
     "non-trivial = the dict channel converts (or fails with a PyXFormError) and at least 3 containers were compared"
 )
 
-NBSP = " "
+NBSP = "\u00a0"
 SCRATCH_ROOT = Path(os.environ.get("C12_TMPDIR", "/tmp/agents/c12/tmp"))
 
 
@@ -677,6 +678,7 @@ def explore(ctx, factor, bs):
             for case in directed_cases():
                 case_run(ctx, case, scratch, full=True)
             fixtures_case(ctx)
+        FN.explore_fn(ctx, rng, ctx.pick(400, 20000) * factor, scratch)
         n = ctx.pick(60, 1500) * factor
         knobs = {"per_container": ctx.pick(3, 5), "p_both": 0.3}
         for i in range(n):
